@@ -5,7 +5,7 @@
    every run (harness/c12.py).  Theorems are over the rationals (order/field facts) or over an
    arbitrary commutative semiring (B'WB, B'Wy); float rounding is outside (see claims/C12.json). *)
 From Coq Require Import List Arith Bool Lia QArith Setoid Morphisms Ring ZArith.
-From PB Require Import C12.Num C12.LArr C12.Model C12.Refine C12.ProofsQ C12.Btb C12.CoxDeBoor C12.Proofs C12.Btwb2D.
+From PB Require Import C12.Num C12.LArr C12.Model C12.Refine C12.ProofsQ C12.Btb C12.CoxDeBoor C12.Proofs C12.Btwb2D C12.Btwy2D C12.BsplUnity.
 Import ListNotations.
 
 (* _find_interval returns THE knot interval of x, for every starting hint (also out-of-range hints),
@@ -154,6 +154,47 @@ Theorem C12_btwb_2d_separable : forall (N : Num) (req : T N -> T N -> Prop),
              (sumR N Nn (fun j => mul N (mul N (v j) (Bc j c)) (Bc j d)))).
 Proof. exact make_btwb_separable. Qed.
 Print Assumptions C12_btwb_2d_separable.
+
+(* 2-D right-hand side: the model of `(basis_r.T @ (weights * y) @ basis_c).ravel()` of PSpline2D.solve (the statement
+   is pinned in the source on every run) is, entry by entry, (B_r (x) B_c)' diag(vec W) vec(Y); any commutative
+   semiring, every weight matrix and data, all shapes (M <> N, P <> Q included). *)
+Theorem C12_btwy_2d : forall (N : Num) (req : T N -> T N -> Prop),
+  Equivalence req -> Proper (req ==> req ==> req) (add N) -> Proper (req ==> req ==> req) (mul N) ->
+  semi_ring_theory (zero N) (one N) (add N) (mul N) req ->
+  forall (M Nn Q : nat) (Br W Y Bc : mat N) (a c : nat), (c < Q)%nat ->
+  req (make_btwy N M Nn Q Br W Y Bc (a * Q + c)%nat)
+      (sumR N Nn (fun j => sumR N M (fun i => mul N (mul N (W i j) (Y i j)) (mul N (Br i a) (Bc j c))))).
+Proof. exact make_btwy_kron. Qed.
+Print Assumptions C12_btwy_2d.
+
+(* ... and for separable (in particular constant) weights W[i,j] = u_i v_j it is B_r' diag(u) Y diag(v) B_c: both weight
+   factors stay in the sum, matching the factorisation of the matrix in C12_btwb_2d_separable. *)
+Theorem C12_btwy_2d_separable : forall (N : Num) (req : T N -> T N -> Prop),
+  Equivalence req -> Proper (req ==> req ==> req) (add N) -> Proper (req ==> req ==> req) (mul N) ->
+  semi_ring_theory (zero N) (one N) (add N) (mul N) req ->
+  forall (M Nn Q : nat) (Br W Y Bc : mat N) (u v : nat -> T N) (a c : nat), (c < Q)%nat ->
+  (forall i j, (i < M)%nat -> (j < Nn)%nat -> req (W i j) (mul N (u i) (v j))) ->
+  req (make_btwy N M Nn Q Br W Y Bc (a * Q + c)%nat)
+      (sumR N Nn (fun j => mul N (mul N (v j) (Bc j c)) (sumR N M (fun i => mul N (mul N (u i) (Br i a)) (Y i j))))).
+Proof. exact make_btwy_separable. Qed.
+Print Assumptions C12_btwy_2d_separable.
+
+(* the Cox-de Boor basis functions themselves (the recursion, independently of the kernels), for EVERY degree, every
+   non-decreasing knot vector with t[nb-1] < t[nb] and every x in [t_k, t_nb] (knots and both ends included):
+   non-negative, and summing to one over the nb basis functions *)
+Theorem C12_bspl_nonneg : forall (knots : list Q) (k : nat) (x : Q),
+  knots_ok knots k ->
+  (gQ knots k <= x <= gQ knots (length knots - (k + 1)))%Q ->
+  forall c, (c < length knots - (k + 1))%nat -> (0 <= bspl knots (length knots - (k + 1)) x k c)%Q.
+Proof. exact bspl_nonneg. Qed.
+Print Assumptions C12_bspl_nonneg.
+
+Theorem C12_bspl_partition_of_unity : forall (knots : list Q) (k : nat) (x : Q),
+  knots_ok knots k ->
+  (gQ knots k <= x <= gQ knots (length knots - (k + 1)))%Q ->
+  sumQ (length knots - (k + 1)) (bspl knots (length knots - (k + 1)) x k) == 1.
+Proof. exact bspl_partition_of_unity. Qed.
+Print Assumptions C12_bspl_partition_of_unity.
 
 (* hypotheses are satisfiable; the ring laws hold for Q (with Qeq) and Z *)
 Example C12_hypotheses_nonvacuous :
